@@ -104,6 +104,32 @@ CLAIMED = {
                      "fault injection into the implementation",
         "design_ref": "DESIGN.md section 4 (C08)",
     },
+    "C10": {
+        "text": "PARTIAL, by design. Admissible.tla has two parts. Object part: the hard-constraint pipeline (amplitude clamp / unit "
+                "amplitude, baseline, positivity, field-of-view mask, slice tying) as a step-wise state machine over amplitude BOUNDS "
+                "in exact units of 1/20, for every constraint configuration (object type x apply_fov_mask x identical_slices x "
+                "positivity x baseline x mask present), every raw amplitude class {0, 1/2, 1, 2, 5} (potential: {-2, -1/2, 0, 1/2, 2}) "
+                "per entry and every mask value {0, 1/2, 1} per pixel; steps are deliberately loose where the property is silent "
+                "(fractional mask values, baseline offset, amplitude after tying). TLC checks AdmissibleObject (complex <= 1, pure "
+                "phase = 1 on exact entries, potential >= 0 under positivity) in every final state and rejects a pipeline without the "
+                "clamp. Probe part: Gram-Schmidt + norm restoration + intensity sort over the Gaussian integers in exact fraction-free "
+                "arithmetic (one Subtract step per earlier mode, Push, Restore, Sort); TLC checks OrthoSoFar after every step, NoneLost, "
+                "SortedDescending, SameMultiset for every ordered set of family vectors (incl. pairs with correlation 0.989) x scales, and "
+                "rejects a projection conjugated the wrong way. Every exported case is replayed: ObjectPixelated.apply_hard_constraints "
+                "and .obj on raw parameters of the model's amplitude classes (phases varied, two layouts) must stay inside the bounds, "
+                "hit exact entries, tie slices, be amplitude-idempotent where the model says so and leave the raw tensor alone; "
+                "ProbeConstraints._probe_orthogonalization_constraint and ProbePixelated.probe must return mutually orthogonal modes "
+                "whose intensities are the model's sorted integer list; set_initial_probe / _apply_weights must give the total "
+                "diffraction intensity and the per-mode fractions the model computes as exact rationals; the tomography object model's "
+                "positivity clamp is checked against the same bounds rule. NOT decided: arbitrary float tensors (only the amplitude "
+                "lattice), smoothing filters, probe centring, 5 modes.",
+        "note": "Trusted: TLC integer arithmetic; float32 comparison tolerances 2e-6 (object) and 1e-4 relative (probe); the harness's "
+                "translation of an amplitude class into a complex number with an arbitrary phase. 3- and 4-mode sets are drawn by "
+                "seeded TLC simulation, 1-2 modes are exhaustive.",
+        "technique": "TLA+ bounds / exact Gram-Schmidt state machines checked by TLC; exported cases replayed into the object and "
+                     "probe models",
+        "design_ref": "DESIGN.md section 5 (C10)",
+    },
     "C11": {
         "text": "VectorHeap.tla models the Vector as a heap (array objects, metadata dict objects, vectors "
                 "holding references) kept in canonical form; TLC checks CellsWellFormed, Schema, "
